@@ -50,6 +50,7 @@ def gen_case(tier):
         "start": st.one_of(st.sampled_from([0, 1, 5, H - 2, H - 1]), st.integers(0, H - 5)),
         "rows": st.sampled_from([0, 0, 1, 2, 3, -1]),
         "cli": st.booleans(), "cli_file": st.booleans(),
+        "tty": st.booleans(), "stray_testnet": st.booleans(),
         "paranoia_pos": st.sampled_from(["front", "front", "after-command", "end", "abbreviated-front", "abbreviated-end"]),
     })
 
@@ -218,6 +219,25 @@ def check_case(case, ctx):
     if st_ == "exc":
         raise Violation("C15/pprint/raised", "%s: pprint(filtered) raised %r" % (what, e))
     outputs.append(("pprint() stdout", json.loads(text)))
+    # the same on a standard output that is an interactive terminal (isatty() true): whatever reaches the terminal is judged
+    import pydoc
+    old_pager = pydoc.pager
+    pydoc.pager = lambda text_, title="": __import__("sys").stdout.write(text_)      # a pager shows the text on the terminal
+    try:
+        with patch.cli([], tty=True) as io:
+            st_, e = call(w.pprint, data=F)
+            text = io["out"].getvalue() + io["err"].getvalue()
+    finally:
+        pydoc.pager = old_pager
+    if st_ == "exc":
+        raise Violation("C15/pprint/raised", "%s: pprint(filtered) on a terminal raised %r" % (what, e))
+    try:
+        outputs.append(("pprint() on an interactive terminal", json.loads(text)))
+    except ValueError:
+        for tok in re.split(r"[\s\",:\[\]{}]+", text):
+            if tok and C.classify(tok)["kind"] in ("wif", "xprv"):
+                raise Violation("C15/leak/private-key-encoding", "%s: pprint(filtered) on a terminal showed %s" % (what, tok))
+        ctx.count("terminal-output-not-json (secrets scanned token-wise)")
     tmp = tempfile.mkdtemp(prefix="c15-")
     try:
         fp = os.path.join(tmp, "w.json")
@@ -247,8 +267,18 @@ def check_case(case, ctx):
                 argv = argv + argv_src[:1] + [flag] + argv_src[1:]
             else:
                 argv = argv + argv_src + [flag]
-            r = cli.run_main(argv, cwd=tmp)
-            ctx.count("cli[%s]:%s" % (ppos, "accepted" if r["status"] == 0 else "refused"))
+            if case["source"] == "xprv" and case.get("stray_testnet"):
+                # an extended key carries its own network; a --testnet flag beside it must not change the public data
+                argv = ["--testnet"] + argv
+                ctx.count("cli: --testnet beside an extended key")
+            tty = bool(case.get("tty")) and not to_file
+            if tty:
+                pydoc.pager = lambda text_, title="": __import__("sys").stdout.write(text_)
+            try:
+                r = cli.run_main(argv, cwd=tmp, tty=tty)
+            finally:
+                pydoc.pager = old_pager
+            ctx.count("cli[%s%s]:%s" % (ppos, ",tty" if tty else "", "accepted" if r["status"] == 0 else "refused"))
             if r["status"] == 0:
                 try:
                     if to_file:
